@@ -16,7 +16,7 @@ CLAIMED = {
             "cell, position inside the box", "§4 C01"),
     "C02": ("bounded symbolic execution of locate_droplets_in_mask on every binary image (bits symbolic, forked) of "
             "Cartesian grids 1D <=6 cells / 2D 3x3 with every periodicity mask and symbolic spacing/origin (2D: "
-            "anisotropic spacing times a symbolic scale), cylindrical 2x3/3x3; independent torus flood-fill oracle; "
+            "anisotropic spacing times a symbolic scale), cylindrical 2x3/3x3 and 3x4 with periodic z; independent torus flood-fill oracle; "
             "z3 decides one-to-one correspondence to components (volume, unwrapped centre of mass modulo the "
             "period), non-overlap of results, and the left-out rule", "§4 C02"),
     "C03": ("bounded symbolic execution of polar_coordinates and of get_phase_field / Emulsion.get_phasefield for "
